@@ -7,6 +7,7 @@ import (
 	"math/big"
 	"strings"
 
+	sdk "github.com/cosmos/cosmos-sdk/types"
 	"github.com/ethereum/go-ethereum/common"
 	ethtypes "github.com/ethereum/go-ethereum/core/types"
 
@@ -183,6 +184,64 @@ func VerifC18_RecordedHash() {
 		zz.Reach("accepted")
 	} else {
 		zz.Reach("?rejected")
+	}
+	zz.Reach("end")
+}
+
+// c18Envelope: a decoded Cosmos transaction as UnwrapEthereumMsg sees it (only GetMsgs is used).
+type c18Envelope struct{ msgs []sdk.Msg }
+
+func (e c18Envelope) GetMsgs() []sdk.Msg   { return e.msgs }
+func (e c18Envelope) ValidateBasic() error { return nil }
+
+// VerifC18_UnwrapKeepsRecordedHashes: an envelope of one to three wrapped transactions (one of each type), then one or two
+// lookups by hash (the hash of any carried message, or a hash no message has). After every lookup each message of the
+// envelope still records its own Ethereum hash; a hit returns exactly the message with that hash, a miss returns an error.
+func VerifC18_UnwrapKeepsRecordedHashes() {
+	to := common.HexToAddress("0xAbCdEf0123456789abcdef0123456789ABCDEF01")
+	all := []*ethtypes.Transaction{
+		ethtypes.NewTx(&ethtypes.LegacyTx{Nonce: 1, GasPrice: big.NewInt(7), Gas: 21000, To: &to, Value: big.NewInt(1), V: big.NewInt(27), R: big.NewInt(1), S: big.NewInt(1)}),
+		ethtypes.NewTx(&ethtypes.AccessListTx{ChainID: big.NewInt(11235), Nonce: 2, GasPrice: big.NewInt(7), Gas: 21000, To: &to, Value: big.NewInt(1), V: big.NewInt(0), R: big.NewInt(1), S: big.NewInt(1)}),
+		ethtypes.NewTx(&ethtypes.DynamicFeeTx{ChainID: big.NewInt(11235), Nonce: 3, GasTipCap: big.NewInt(1), GasFeeCap: big.NewInt(7), Gas: 21000, To: &to, Value: big.NewInt(1), V: big.NewInt(0), R: big.NewInt(1), S: big.NewInt(1)}),
+	}
+	n := 1 + zz.Choose("messages", 3)
+	first := zz.Choose("firstType", 3)
+	env := c18Envelope{}
+	var own []common.Hash
+	for i := 0; i < n; i++ {
+		tx := all[(first+i)%3]
+		m := &MsgEthereumTx{}
+		if err := m.FromEthereumTx(tx); err != nil {
+			panic(err)
+		}
+		env.msgs = append(env.msgs, m)
+		own = append(own, tx.Hash())
+	}
+	var stx sdk.Tx = env
+	lookups := 1 + zz.Choose("lookups", 2)
+	for l := 0; l < lookups; l++ {
+		k := zz.Choose("target", n+2) // n: the zero hash (Resend), n+1: some other hash
+		var h common.Hash
+		switch {
+		case k < n:
+			h = own[k]
+		case k == n+1:
+			h = common.HexToHash("0x1111111111111111111111111111111111111111111111111111111111111111")
+		}
+		got, err := UnwrapEthereumMsg(&stx, h)
+		if k < n {
+			zz.Assert(err == nil && got == env.msgs[k].(*MsgEthereumTx), "a lookup by the hash of a carried message returns that message")
+			if err == nil {
+				zz.Assert(got.Hash == h.Hex(), "the returned message records the hash it was looked up by")
+			}
+		} else {
+			zz.Assert(err != nil && got == nil, "a lookup by a hash no message has finds nothing")
+		}
+		for i, m := range env.msgs {
+			em := m.(*MsgEthereumTx)
+			zz.Assert(em.Hash == own[i].Hex(), "after a lookup every message of the envelope still records its own Ethereum hash")
+			zz.Assert(em.ValidateBasic() == nil, "after a lookup every message of the envelope still passes ValidateBasic")
+		}
 	}
 	zz.Reach("end")
 }
